@@ -251,7 +251,27 @@ def literal_count_facts(exprs) -> list:
     return [str_count_nl(z3.StringVal(s)) == s.count("\n") for s in sorted(lits)]
 
 
-def discharge(vc: VC, timeout_ms: int = 10000, retry: bool = True) -> Discharged:
+def heavy_quantified(f) -> bool:
+    """f contains a quantifier with more than one bound variable or a quantifier inside a quantifier."""
+    seen = set()
+    stack = [(f, 0)]
+    while stack:
+        e, depth = stack.pop()
+        if (e.get_id(), depth > 0) in seen:
+            continue
+        seen.add((e.get_id(), depth > 0))
+        if z3.is_quantifier(e):
+            if e.num_vars() > 1 or depth > 0:
+                return True
+            stack.append((e.body(), depth + 1))
+        elif z3.is_app(e):
+            stack.extend((c, depth) for c in e.children())
+    return False
+
+
+def discharge(vc: VC, timeout_ms: int = 10000, retry: bool | int = True) -> Discharged:
+    # retry: 2 / True = every fallback, 1 = the cheap ones only (a contract that already has a failed obligation), 0 = none
+    level = 2 if retry is True else int(retry)
     from pyvc.engine import int_str, parse_int, str_count_nl
 
     s = z3.Solver()
@@ -278,13 +298,30 @@ def discharge(vc: VC, timeout_ms: int = 10000, retry: bool = True) -> Discharged
         return Discharged(vc, "held", "z3", ms)
     if r == z3.sat:
         return Discharged(vc, "violated", "z3", ms, s.model())
-    if vc.canary or not retry:
+    if vc.canary or level == 0:
         return Discharged(vc, "undecided", "z3", ms, None, s.reason_unknown())
+    # Hypotheses with several bound variables or nested quantifiers (deep typing of nested lists, two-index preconditions)
+    # feed the instantiation engine without end when the goal does not need them.  Dropping hypotheses is sound (what is
+    # proved from fewer assumptions is proved), so before restarting with other seeds: once without all of them, then
+    # leaving out one at a time.  A `sat` from a reduced set means nothing and is ignored.
+    hyps = list(s.assertions())
+    heavy = [i for i, f in enumerate(hyps[:-1]) if heavy_quantified(f)]
+    if heavy:
+        variants = [("all heavy", set(heavy))] + ([(f"#{i}", {i}) for i in heavy] if len(heavy) > 1 and level >= 2 else [])
+        for label, drop in variants[:6]:
+            s3 = z3.Solver()
+            s3.set("timeout", timeout_ms if label == "all heavy" else max(2000, timeout_ms // 2))
+            s3.add(*[f for i, f in enumerate(hyps) if i not in drop])
+            t0 = time.time()
+            r3 = s3.check()
+            ms += (time.time() - t0) * 1000
+            if r3 == z3.unsat:
+                return Discharged(vc, "held", f"z3(without {len(drop)} unneeded quantified hypothes{'is' if len(drop) == 1 else 'es'})", ms)
     # The solver's run time on one and the same formula varies by orders of magnitude between processes (internal tables are
     # ordered by addresses), and inside one process a repetition takes the same unlucky path again.  So the retries restart
     # with different random seeds: three at the plain budget, then one at four times the budget.
     reason = s.reason_unknown()
-    for seed, factor in ((1, 1), (2, 1), (3, 1), (4, 4)):
+    for seed, factor in ((1, 1), (2, 1), (3, 1), (4, 4)) if level >= 2 else ((1, 1),):
         s2 = z3.Solver()
         s2.set("timeout", timeout_ms * factor)
         s2.set("random_seed", seed)
@@ -313,7 +350,7 @@ def verify_contract(repo: Repo, reg: Registry, c: Contract, timeout_ms: int = 10
     for vc in vcs:
         # once three obligations of a contract have failed, the remaining ones get the plain budget without the long
         # retry: the contract is evidently broken, and a broken tree must not make the check run for many minutes
-        d = discharge(vc, timeout_ms, retry=failures < 3)
+        d = discharge(vc, timeout_ms, retry=2 if failures == 0 else (1 if failures < 3 else 0))
         if d.status != "held" and not vc.canary and not vc.cover:
             failures += 1
         out.append(d)
